@@ -196,6 +196,177 @@ theorem detect_columns_distinct (e : Ext) (headers : List Str) (sp : Impl.Detect
   obtain ⟨hd, _⟩ := detect_distinct e headers sp h
   exact ⟨hd.1, hd.2.1, hd.2.2.1⟩
 
+/-! ### what inspect may put into its suggestion: a date format with a comma can never round-trip
+
+`tally inspect` reports a date format and writes it into the suggested format string.  The round trip of clause 3 needs that
+format to be WRITABLE (`suggest_roundtrip`'s hypothesis; the detected constant is, by computation, in `inspect_roundtrip`).
+The converse, for every format string whatsoever: no accepted string carries a date format with a comma in it, because
+the string is cut at every comma before any token is read.  So a suggestion built around `%b %d, %Y` (the shape
+`Jan 05, 2025` of card and brokerage exports) cannot give that format back, whatever else it contains. -/
+
+private theorem splitComma_no_comma : ∀ (s : Str) (p : Str), p ∈ splitComma s → ',' ∉ p
+  | [], p, h => by
+    simp [splitComma] at h; subst h; simp
+  | c :: cs, p, h => by
+    have ih := splitComma_no_comma cs
+    unfold splitComma at h
+    cases hsp : splitComma cs with
+    | nil => simp [hsp] at h; subst h; simp
+    | cons q qs =>
+      simp only [hsp] at h
+      have hq : ',' ∉ q := ih q (by simp [hsp])
+      have hqs : ∀ x ∈ qs, ',' ∉ x := fun x hx => ih x (by simp [hsp, hx])
+      by_cases hc : c = ','
+      · simp [hc] at h
+        rcases h with rfl | rfl | h
+        · simp
+        · exact hq
+        · exact hqs _ h
+      · simp [hc] at h
+        rcases h with rfl | h
+        · intro hm
+          rcases List.mem_cons.mp hm with hm | hm
+          · exact hc hm.symm
+          · exact hq hm
+        · exact hqs _ h
+
+private theorem strip_subset (e : Ext) (s : Str) : ∀ c ∈ strip e s, c ∈ s := by
+  intro c hc
+  unfold strip at hc
+  have h1 := (List.dropWhile_sublist e.isSpace).subset (List.mem_reverse.mp hc)
+  exact (List.dropWhile_sublist e.isSpace).subset (List.mem_reverse.mp h1)
+
+private theorem takeSign_subset (r : Str) : ∀ c ∈ (takeSign r).2, c ∈ r := by
+  intro c hc
+  cases r with
+  | nil => simp [takeSign] at hc
+  | cons a t =>
+    simp only [takeSign] at hc
+    by_cases h : (a = '-' || a = '+') = true
+    · rw [if_pos h] at hc; exact List.mem_cons_of_mem _ hc
+    · rw [if_neg h] at hc; exact hc
+
+private theorem takeName_subset (e : Ext) (r : Str) (name rest : Str) (h : takeName e r = some (name, rest)) :
+    ∀ c ∈ rest, c ∈ r := by
+  intro c hc
+  cases r with
+  | nil => simp [takeName] at h
+  | cons a t =>
+    simp only [takeName] at h
+    by_cases h1 : a = '*'
+    · rw [if_pos h1] at h
+      cases h; exact List.mem_cons_of_mem _ hc
+    · rw [if_neg h1] at h
+      by_cases h2 : ((a :: t).takeWhile e.isWord).isEmpty = true
+      · rw [if_pos h2] at h; cases h
+      · rw [if_neg h2] at h
+        cases h; exact (List.dropWhile_sublist e.isWord).subset hc
+
+private theorem takeSpec_subset (r : Str) (f : Str) (h : takeSpec r = some (some f)) : ∀ c ∈ f, c ∈ r := by
+  intro c hc
+  cases r with
+  | nil => simp [takeSpec] at h
+  | cons a t =>
+    simp only [takeSpec] at h
+    by_cases h1 : a = '}'
+    · rw [if_pos h1] at h; cases h
+    · rw [if_neg h1] at h
+      by_cases h2 : a = ':'
+      · rw [if_pos h2] at h
+        by_cases h3 : (t.takeWhile (· != '}')).isEmpty = true
+        · rw [if_pos h3] at h; cases h
+        · rw [if_neg h3] at h
+          cases hd : t.dropWhile (· != '}') with
+          | nil => rw [hd] at h; cases h
+          | cons x xs =>
+            rw [hd] at h
+            cases h
+            exact List.mem_cons_of_mem _ ((List.takeWhile_sublist _).subset hc)
+      · rw [if_neg h2] at h; cases h
+
+private theorem matchTok_spec_subset (e : Ext) (s : Str) (t : RawTok) (f : Str) (h : matchTok e s = some t)
+    (hf : t.spec = some f) : ∀ c ∈ f, c ∈ s := by
+  intro c hc
+  cases s with
+  | nil => simp [matchTok] at h
+  | cons a r =>
+    simp only [matchTok] at h
+    by_cases ha : a = '{'
+    · rw [if_pos ha] at h
+      cases hn : takeName e (takeSign r).2 with
+      | none => rw [hn] at h; cases h
+      | some nr =>
+        obtain ⟨name, r2⟩ := nr
+        rw [hn] at h
+        simp only at h
+        cases hs : takeSpec r2 with
+        | none => rw [hs] at h; cases h
+        | some sp =>
+          rw [hs] at h
+          cases h
+          simp only at hf
+          subst hf
+          have h1 := takeSpec_subset r2 f hs c hc
+          have h2 := takeName_subset e _ name r2 hn c h1
+          exact List.mem_cons_of_mem _ (takeSign_subset r c h2)
+    · rw [if_neg ha] at h; cases h
+
+private theorem step_dateFormat {e : Ext} {idx : Nat} {st st' : St} {t : RawTok} (h : Impl.step e idx st t = .ok st')
+    (hst : ',' ∉ st.dateFormat) (ht : ∀ f, t.spec = some f → ',' ∉ f) : ',' ∉ st'.dateFormat := by
+  unfold Impl.step at h
+  simp only at h
+  repeat' split at h
+  all_goals first | (cases h; done) | skip
+  all_goals cases h
+  all_goals first | exact hst | exact ht _ (by assumption)
+
+private theorem loop_dateFormat {e : Ext} : ∀ (parts : List Str) {idx : Nat} {st st' : St},
+    Impl.loop e idx st parts = .ok st' → ',' ∉ st.dateFormat → (∀ p ∈ parts, ',' ∉ p) → ',' ∉ st'.dateFormat
+  | [], idx, st, st', h, hst, _ => by
+    simp only [Impl.loop] at h; cases h; exact hst
+  | p :: ps, idx, st, st', h, hst, hp => by
+    simp only [Impl.loop] at h
+    cases hm : matchTok e (strip e p) with
+    | none => rw [hm] at h; cases h
+    | some t =>
+      rw [hm] at h
+      simp only at h
+      cases hs : Impl.step e idx st t with
+      | error err => rw [hs] at h; cases h
+      | ok st1 =>
+        rw [hs] at h
+        simp only at h
+        have ht : ∀ f, t.spec = some f → ',' ∉ f := by
+          intro f hf hc
+          exact hp p (List.mem_cons_self) (strip_subset e p _ (matchTok_spec_subset e _ t f hm hf _ hc))
+        exact loop_dateFormat ps h (step_dateFormat hs hst ht) (fun q hq => hp q (List.mem_cons_of_mem _ hq))
+
+private theorem finish_dateFormat {e : Ext} {st : St} {tmpl : Option Str} {spec : FormatSpec}
+    (h : Impl.finish e st tmpl = .ok spec) : spec.dateFormat = st.dateFormat := by
+  unfold Impl.finish at h
+  simp only at h
+  repeat' split at h
+  all_goals first | (cases h; done) | skip
+  all_goals cases h
+  all_goals rfl
+
+
+/-- **No format string yields a date format that contains a comma** (any string, any template, any `Ext`): the date format of an
+accepted string is the default or the `:spec` of one comma-separated piece. -/
+theorem accepted_date_format_has_no_comma (e : Ext) (s : Str) (tmpl : Option Str) (spec : FormatSpec)
+    (h : Impl.parseFormat e s tmpl = .ok spec) : ',' ∉ spec.dateFormat := by
+  obtain ⟨st, hl, hf⟩ := parse_ok_elim h
+  rw [finish_dateFormat hf]
+  exact loop_dateFormat _ hl (by decide) (splitComma_no_comma s)
+
+/-- **A reported date format with a comma never round-trips**: for EVERY detected spec (any columns) whose date format contains a
+comma, no parse of the suggested format string gives that date format back — the suggestion is rejected or reads another
+format.  (On the real parser it is rejected: the example `{date:%b %d, %Y}, {description}, {amount}` below.) -/
+theorem comma_date_format_never_roundtrips (e : Ext) (sp : Impl.DetectSpec) (hc : ',' ∈ sp.dateFormat) :
+    ¬ ∃ spec, Impl.parseFormat e (Impl.suggest sp) none = .ok spec ∧ spec.dateFormat = sp.dateFormat := by
+  rintro ⟨spec, hok, hfmt⟩
+  exact accepted_date_format_has_no_comma e _ none spec hok (hfmt ▸ hc)
+
 /-! ### non-vacuity: concrete inputs satisfying the hypotheses (and the excluded region, on the model) -/
 
 instance {ε α : Type} [DecidableEq ε] [DecidableEq α] : DecidableEq (Except ε α) := fun a b =>
@@ -248,6 +419,12 @@ example : Impl.parseFormat asciiExt "{date:%b %d, %Y}, {description}, {amount}".
   decide +kernel
 example : (Impl.parseFormat asciiExt "{date:a}b}, {description}, {amount}".toList none).toOption.map (·.dateFormat)
     = some ['a'] := by decide +kernel
+
+/-- the hypothesis of `comma_date_format_never_roundtrips` on the witness of the class: dates like `Jan 05, 2025`; the suggestion
+built for columns (0, 1, 2) is the string of the example above, and it is rejected -/
+example : ',' ∈ (⟨0, "%b %d, %Y".toList, 1, 2, none⟩ : Impl.DetectSpec).dateFormat := by decide +kernel
+example : Impl.parseFormat asciiExt (Impl.suggest ⟨0, "%b %d, %Y".toList, 1, 2, none⟩) none = .error (.invalidToken 0) := by
+  decide +kernel
 
 /-- header detection and the suggestion on a concrete header row -/
 def sampleHeaders : List Str :=
